@@ -298,6 +298,30 @@ func runC03(c *Ctx) {
 		good := lk != nil && del != nil && lk.Index == get.Params[1] && callOf(del).Args[1] == ssa.Value(get.Params[1])
 		c.check(good, "R4", "getChannel removes what it returns", p.Pos(get.Pos()), "lookup and delete use the same id", "getChannel does not delete the entry it returns: a second reply (or broadcast) would be delivered to the same caller twice")
 	}
+	if get != nil {
+		// who may take an entry out of the table: the receiver, for the reply, and dispatchRequest, for a request whose
+		// write failed.  Anybody else (a cancelled call, say) would turn the reply that is still to come into an
+		// "unknown id", which ends the session for every other caller.
+		for _, site := range p.callersOfStatic(get) {
+			who := fnName(outermost(site.Parent()))
+			c.check(who == "(*clientConn).recv" || who == "(*clientConn).dispatchRequest", "R4", "caller of getChannel: "+fnName(site.Parent()), pos(site),
+				"the receiver (reply) or dispatchRequest (failed write)", "getChannel is called from "+fnName(site.Parent())+": the entry of a request whose reply is still to come is removed, the reply then finds no channel and recv ends the session for all callers")
+		}
+		c.check(len(p.refsAsValue(get)) == 0, "R4", "getChannel is only called directly", p.Pos(get.Pos()), "no method value taken", "getChannel escapes as a method value: its callers cannot be enumerated")
+		for _, fn := range p.LibFuncs() {
+			eachInstr(fn, func(in ssa.Instruction) {
+				cc := callOf(in)
+				if cc == nil || builtinName(cc) != "delete" {
+					return
+				}
+				for _, l := range leavesOf(cc.Args[0]) {
+					if l.Kind == leafFieldLoad && l.Field == "inflight" {
+						c.check(fn == get || fnName(fn) == "(*clientConn).broadcastErr", "R4", "delete from the in-flight table in "+fnName(fn), pos(in), "only getChannel (and the final sweep) removes entries", "an in-flight entry is deleted outside getChannel")
+					}
+				}
+			})
+		}
+	}
 	if recv := p.Func("(*clientConn).recv"); recv == nil {
 		c.missing("R4", "(*clientConn).recv")
 	} else {
